@@ -113,7 +113,7 @@ impl ElementRaw {
                         if let Some(partial_path) = refpath.strip_prefix(&old_path) {
                             // prevent ref updates from being applied to e.g. /package10 while renaming /package1
                             if partial_path.is_empty() || partial_path.starts_with('/') {
-                                if let Some(reflist) = model_locked.reference_origins.remove(&refpath) {
+                                if let Some(mut reflist) = model_locked.reference_origins.remove(&refpath) {
                                     let refpath_new = format!("{new_prefix}{partial_path}");
 
                                     for weak_ref_elem in &reflist {
@@ -125,7 +125,13 @@ impl ElementRaw {
                                             );
                                         }
                                     }
-                                    model_locked.reference_origins.insert(refpath_new, reflist);
+                                    // other references may already use the new path (e.g. references that were
+                                    // dangling until now): they must stay in the list of referrers
+                                    if let Some(existing_list) = model_locked.reference_origins.get_mut(&refpath_new) {
+                                        existing_list.append(&mut reflist);
+                                    } else {
+                                        model_locked.reference_origins.insert(refpath_new, reflist);
+                                    }
                                 }
                             }
                         }
